@@ -138,3 +138,14 @@ Theorem C02_rendering_examples :
   /\ wf (ABin OMul (ACall (IPlain [65]) [two; ABin OPlus idB two]) (ACall (IPlain [70; 78; 88]) [idC])).
 Proof. exact renderings. Qed.
 Print Assumptions C02_rendering_examples.
+
+(* ---- the model's precedence tables are the source's (Gen/SourceTables.v is regenerated from /repo/src/lang/parse.rs by
+   tools/tables.py on every run; Proofs/SourceTables.v) ---- *)
+From Coq Require Import List.
+From BL Require Import Lang.Token Lang.Parse Gen.SourceTables Proofs.SourceTables.
+
+Theorem C02_precedences_are_the_sources :
+  map (fun p => unary_prec (fst p)) src_unary_prec = map snd src_unary_prec /\ (forall o, In o (map fst src_unary_prec))
+  /\ map (fun p => binary_prec (fst p)) src_binary_prec = map snd src_binary_prec /\ (forall o, In o (map fst src_binary_prec)).
+Proof. exact precedences_are_the_sources. Qed.
+Print Assumptions C02_precedences_are_the_sources.
